@@ -5,6 +5,7 @@ import (
 	"encoding/json"
 	"fmt"
 	"math/big"
+	"os"
 	"sort"
 	"strings"
 	"time"
@@ -17,6 +18,7 @@ import (
 
 	e "haqqsim/engine"
 
+	erc20types "github.com/haqq-network/haqq/x/erc20/types"
 	evmtypes "github.com/haqq-network/haqq/x/evm/types"
 	vestingtypes "github.com/haqq-network/haqq/x/vesting/types"
 )
@@ -272,6 +274,27 @@ func haqqQuerySet(w *e.World, r *e.Replica) map[string]string {
 	} {
 		q(p, p, nil)
 	}
+	// every pair must be found by denom and by address, enabled or not
+	for _, pair := range w.App().Erc20Keeper.GetTokenPairs(w.CommittedCtx()) {
+		for _, tok := range []string{pair.Denom, pair.Erc20Address} {
+			tr := &erc20types.QueryTokenPairRequest{Token: tok}
+			bz, _ := tr.Marshal()
+			q("tokenpair:"+tok, "/evmos.erc20.v1.Query/TokenPair", bz)
+		}
+	}
+	// contracts created by transactions (incl. accounts with storage but no code)
+	created, _ := w.Ext["contracts"].([]common.Address)
+	for _, c := range created {
+		addr := c.Hex()
+		cr := &evmtypes.QueryCodeRequest{Address: addr}
+		bz, _ := cr.Marshal()
+		q("code:"+addr, "/ethermint.evm.v1.Query/Code", bz)
+		for i := 0; i < 4; i++ {
+			sr := &evmtypes.QueryStorageRequest{Address: addr, Key: common.BigToHash(big.NewInt(int64(i))).Hex()}
+			bz, _ = sr.Marshal()
+			q(fmt.Sprintf("storage:%s:%d", addr, i), "/ethermint.evm.v1.Query/Storage", bz)
+		}
+	}
 	// contracts deployed by token-pair registration: code and storage
 	for _, pair := range w.App().Erc20Keeper.GetTokenPairs(w.CommittedCtx()) {
 		addr := pair.Erc20Address
@@ -351,7 +374,17 @@ func exportImportCheck(w *e.World, cont bool) *e.Violation {
 		ra := contBlock(w, A, w.Height+blk, blk)
 		rb := contBlock(w, B, w.Height+blk, blk)
 		if ra != rb {
-			return e.Violatef("export-import", "behaviour-differs-after-import", "block %d after the export point: tx result codes %s on the original vs %s on the imported application", blk+1, ra, rb)
+			sig := "behaviour-differs-after-import"
+			if strings.HasPrefix(rb, "panic") && !strings.HasPrefix(ra, "panic") {
+				sig = "imported-chain-halts"
+			}
+			return e.Violatef("export-import", sig, "block %d after the export point: %s on the original vs %s on the imported application", blk+1, ra, rb)
+		}
+		if strings.HasPrefix(ra, "panic") {
+			if os.Getenv("HAQQSIM_DEBUG") != "" {
+				fmt.Fprintln(os.Stderr, "BOTH PANIC:", ra, "|", rb)
+			}
+			return nil // both halt identically: nothing more to compare
 		}
 		if blk == 0 {
 			qa, qb := haqqQuerySet(w, A), haqqQuerySet(w, B)
@@ -390,7 +423,17 @@ func classify(s string) string {
 
 // contBlock executes one block with a few plain transactions on a fork and
 // returns the result codes.
-func contBlock(w *e.World, r *e.Replica, height, k int64) string {
+func contBlock(w *e.World, r *e.Replica, height, k int64) (out string) {
+	defer func() {
+		// a chain halt (panic outside DeliverTx) is an outcome to compare, not a harness failure
+		if x := recover(); x != nil {
+			out = "panic: " + trunc(fmt.Sprint(x), 160)
+		}
+	}()
+	return contBlockInner(w, r, height, k)
+}
+
+func contBlockInner(w *e.World, r *e.Replica, height, k int64) string {
 	hdr := w.Header
 	hdr.Height = height
 	hdr.Time = w.Now.Add(time.Duration(5*(k+1)) * time.Second)
@@ -398,6 +441,17 @@ func contBlock(w *e.World, r *e.Replica, height, k int64) string {
 	req := w.BlockReq
 	req.Header = hdr
 	req.ByzantineValidators = nil
+	// only validators that staking still knows may appear in the commit info (see
+	// engine.beginBlock); decided once on the original's committed state so that
+	// both continuations get the same votes
+	var votes []abci.VoteInfo
+	cctx := w.CommittedCtx()
+	for _, v := range req.LastCommitInfo.Votes {
+		if _, ok := w.App().StakingKeeper.GetValidatorByConsAddr(cctx, sdk.ConsAddress(v.Validator.Address)); ok {
+			votes = append(votes, v)
+		}
+	}
+	req.LastCommitInfo = abci.CommitInfo{Votes: votes}
 	r.DB.Phase = "begin"
 	r.App.BeginBlock(req)
 	var codes []string
